@@ -72,6 +72,7 @@ type FuncContract struct {
 	MayPanic bool
 	CallsArg bool // the function's whole effect is to call its last argument (a func()) once
 	Bounded  []BoundedDef
+	NoSafety string // reason why panic-freedom obligations are not generated for this function
 }
 
 // BoundedDef attaches a bounded stand-in (a harness test run on the real code over an
@@ -460,6 +461,11 @@ func (sp *Specs) LoadFile(path, pkgName string) error {
 		case "global_nonnil":
 			sp.NonNil = append(sp.NonNil, splitList(rest)...)
 			cur = nil
+		case "nosafety":
+			cur.NoSafety = strings.Trim(strings.TrimSpace(rest), `"`)
+			if cur.NoSafety == "" {
+				cur.NoSafety = "unspecified"
+			}
 		case "callsarg":
 			cur.CallsArg = true
 		case "assume_pure":
